@@ -38,8 +38,8 @@ PLAN = {
     "C24": dict(quick=3000, thorough=200000, timeout=60),
     "C19": dict(quick=480, thorough=12000, timeout=300),
     "C29": dict(quick=10000, thorough=400000, timeout=90),
-    "C18": dict(quick=1600, thorough=40000, timeout=240), "C20": dict(quick=400, thorough=20000, timeout=240),
-    "C21": dict(quick=320, thorough=30000, timeout=300),
+    "C18": dict(quick=1600, thorough=40000, timeout=240), "C20": dict(quick=2400, thorough=60000, timeout=240),
+    "C21": dict(quick=320, thorough=30000, timeout=300, extra=[("C21D", dict(quick=400, thorough=30000, timeout=300))]),
     # C40 = race-detector batch (C40) + cooperative-scheduler batch of the same programs (C40D)
     "C40": dict(quick=64, thorough=6000, timeout=180, race=True, gomaxprocs=4, workers=8,
                 extra=[("C40D", dict(quick=240, thorough=30000, timeout=300))]),
